@@ -228,14 +228,14 @@ func clip(b []byte) []byte {
 }
 
 type chunkFail struct {
-	ID     int     `json:"id"`
-	OK     bool    `json:"ok"`
-	Sig    string  `json:"sig"`
-	Detail string  `json:"detail"`
-	Path   string  `json:"path"`
-	Raw    string  `json:"raw"`
-	Cfg    rawCfg  `json:"cfg"`
-	Drift  string  `json:"drift,omitempty"`
+	ID     int    `json:"id"`
+	OK     bool   `json:"ok"`
+	Sig    string `json:"sig"`
+	Detail string `json:"detail"`
+	Path   string `json:"path"`
+	Raw    string `json:"raw"`
+	Cfg    rawCfg `json:"cfg"`
+	Drift  string `json:"drift,omitempty"`
 }
 
 func maxLine(b []byte) int {
@@ -300,7 +300,7 @@ func chunkedMain() {
 					nevals++
 					if sig, det := judge(c.P, want, c.P.Cons, o, true); sig != "" {
 						report(sig, det, "raw", in, cfg)
-					} else if rep == 0 && (o.Accept != (c.M.V == "accept") || (o.Accept && o.Cons != c.M.Cons)) && !(c.P.V == "incomplete" && c.P.InData) {
+					} else if rep == 0 && (o.Accept != (c.M.V == "accept") || (o.Accept && o.Cons != c.M.Cons)) && !(c.P.V == "incomplete" && c.P.InData) && !c.P.Ext {
 						ndrift++
 						if ndrift <= 5 {
 							vh.Emit(chunkFail{ID: c.ID, OK: true, Drift: fmt.Sprintf("mechanism model says %s/%d, code: accept=%v cons=%d err=%q", c.M.V, c.M.Cons, o.Accept, o.Cons, o.Err), Raw: hex.EncodeToString(in), Cfg: cfg})
